@@ -138,7 +138,7 @@ pub fn run(ctx: &Ctx) -> Outcome {
         }
         let rt = route(&res[0]);
         // error histories: the same pattern under tiny backtrack limits
-        for l in 0..4usize {
+        for l in [0usize, 2] {
             if let Got::Val(r) = compile_with(&s, |b| {
                 b.backtrack_limit(l);
             }) {
@@ -161,13 +161,13 @@ pub fn run(ctx: &Ctx) -> Outcome {
                     }
                     Got::Val(Err((api, want, got))) => {
                         let mut v = Violation::new("C11", "replace-model", &s, t, 0, &api, want, got);
-                        v.options = json!({"backtrack_limit": if k == 0 { json!("default") } else { json!(k - 1) }});
+                        v.options = json!({"backtrack_limit": if k == 0 { json!("default") } else { json!((k - 1) * 2) }});
                         acc.violate(v);
                     }
                     Got::StepCap => acc.inconclusive += 1,
                     o => {
                         let mut v = Violation::new("C11", "panic", &s, t, 0, "try_replacen/replace*", "Ok or Err".into(), o.show());
-                        v.options = json!({"backtrack_limit": if k == 0 { json!("default") } else { json!(k - 1) }});
+                        v.options = json!({"backtrack_limit": if k == 0 { json!("default") } else { json!((k - 1) * 2) }});
                         acc.violate(v);
                     }
                 }
@@ -180,7 +180,7 @@ pub fn run(ctx: &Ctx) -> Outcome {
     });
     let mut out = Outcome::new(acc);
     out.distinct_nontrivial = out.acc.distinct;
-    out.rule = format!("{} + \\G/\\K variants of the small trees, every second pattern spelled with named groups; x all {} texts over {{a,b,c,é,\\n,-}} up to length 3 x limits 0..3 x replacers {{\"<>\" as &str / String / NoExpand / closure, identity closure, NoExpand(\"$1\"), templates $0 [$1] ${{g1}} $$ $2-$1}}: result = text with the first n captures_iter matches replaced by the replacer's own output (Captures::expand for templates), other bytes untouched; Cow::Borrowed iff no match; the three spellings of a constant agree (fast path vs captures path); under backtrack limits 0-3 the calls return, never panic. Non-trivial: distinct patterns where >= 1 but not all matches were replaced, or an empty match was replaced.", sp.describe, texts.len());
+    out.rule = format!("{} + \\G/\\K variants of the small trees, every second pattern spelled with named groups; x all {} texts over {{a,b,c,é,\\n,-}} up to length 3 x limits 0..3 x replacers {{\"<>\" as &str / String / NoExpand / closure, identity closure, NoExpand(\"$1\"), templates $0 [$1] ${{g1}} $$ $2-$1}}: result = text with the first n captures_iter matches replaced by the replacer's own output (Captures::expand for templates), other bytes untouched; Cow::Borrowed iff no match; the three spellings of a constant agree (fast path vs captures path); under backtrack limits 0 and 2 a search error among the matches to be replaced must come back as Err, and the calls return, never panic. Non-trivial: distinct patterns where >= 1 but not all matches were replaced, or an empty match was replaced.", sp.describe, texts.len());
     out.assumptions = vec!["template expansion itself is judged by C12; find_iter by C08".into()];
     let eh = out.acc.get("error-histories");
     out.extra = json!({"error_histories": eh});
